@@ -31,6 +31,7 @@ type evY struct{ n int }
 
 type ping struct{ n int }
 type spawnKids struct{ n, depth int }
+type spawnNamed struct{ name string }
 type boom struct{}
 type selfKill struct{ poison bool }
 
@@ -41,7 +42,7 @@ type worker struct {
 }
 
 type counters struct {
-	handled, spawned, failed atomic.Int64
+	handled, spawned, failed, badSpawn atomic.Int64
 }
 
 func (w *worker) OnReceive(ctx vivid.ActorContext) {
@@ -60,6 +61,13 @@ func (w *worker) OnReceive(ctx vivid.ActorContext) {
 			if _, err := ctx.ActorOf(&worker{depth: w.depth + 1, stats: w.stats}); err == nil {
 				w.stats.spawned.Add(1)
 			}
+		}
+	case *spawnNamed:
+		// "create the named child unless it is there already"
+		if _, err := ctx.ActorOf(&worker{depth: w.depth + 1, stats: w.stats}, vivid.WithActorName(m.name)); err == nil {
+			w.stats.spawned.Add(1)
+		} else if !errors.Is(err, vivid.ErrorActorAlreadyExists) {
+			w.stats.badSpawn.Add(1)
 		}
 	case *boom:
 		w.stats.failed.Add(1)
@@ -112,7 +120,7 @@ func TestC10Stress(t *testing.T) {
 		}
 		var bad atomic.Value
 		fail := func(sig, format string, a ...any) { bad.CompareAndSwap(nil, [2]string{sig, fmt.Sprintf(format, a...)}) }
-		var overlap atomic.Int64
+		var overlap, named, collisions atomic.Int64
 		var wg sync.WaitGroup
 		for g := 0; g < nGo; g++ {
 			wg.Add(1)
@@ -121,7 +129,7 @@ func TestC10Stress(t *testing.T) {
 				y := x ^ (uint64(g)+1)*0xbf58476d1ce4e5b9
 				for i := 0; i < opsPer; i++ {
 					y = y*6364136223846793005 + 1442695040888963407
-					switch (y >> 33) % 14 {
+					switch (y >> 33) % 16 {
 					case 0, 1, 2:
 						ref, err := sys.ActorOf(&worker{stats: st})
 						if err != nil {
@@ -195,6 +203,23 @@ func TestC10Stress(t *testing.T) {
 					case 13:
 						sys.EventStream().Subscribe(sys, evY{})
 						sys.EventStream().Unsubscribe(sys, evY{})
+					case 14:
+						// several goroutines create the same named top-level actor "unless someone was faster"
+						name := fmt.Sprintf("svc-%d", (y>>45)%5)
+						ref, err := sys.ActorOf(&worker{stats: st}, vivid.WithActorName(name))
+						switch {
+						case err == nil:
+							addRef(ref)
+							named.Add(1)
+						case errors.Is(err, vivid.ErrorActorAlreadyExists):
+							collisions.Add(1)
+						default:
+							fail("C10/api-error", "System.ActorOf(%s): %v", name, err)
+						}
+					case 15:
+						if ref := pick(y >> 20); ref != nil {
+							sys.Tell(ref, &spawnNamed{name: fmt.Sprintf("kid-%d", (y>>45)%3)})
+						}
 					}
 				}
 			}(g)
@@ -271,13 +296,26 @@ func TestC10Stress(t *testing.T) {
 				fail("C10/tree-consistency", "%d goroutines x %d ops, decision %s (%s): %s", nGo, opsPer, dec, kind, strings.Join(problems, "; "))
 			}
 		}
+		if n := st.badSpawn.Load(); n > 0 {
+			fail("C10/api-error", "%d named ActorOf calls inside actors failed with something else than ActorAlreadyExists", n)
+		}
 		if err := sys.Stop(20 * time.Second); err != nil {
 			fail("C10/stop-after-stress", "Stop after the stress: %v", err)
+		} else if left := sys.VerifActors(); len(left) > 0 {
+			var ps []string
+			for _, a := range left {
+				ps = append(ps, a.Path)
+			}
+			if len(ps) > 6 {
+				ps = ps[:6]
+			}
+			fail("C10/stop-after-stress|actors-left", "Stop returned nil but %d actors are still registered: %v", len(left), ps)
 		}
 		vstat.Case(vstat.Hash("c10", seed, r), overlap.Load() > 0 && nGo >= 2, []string{"decision:" + dec.String(), "strategy:" + kind}, func() any {
-			return map[string]any{"goroutines": nGo, "ops_per_goroutine": opsPer, "decision": dec.String(), "strategy": kind, "kills": overlap.Load(), "handled": st.handled.Load(), "children_spawned": st.spawned.Load(), "failures": st.failed.Load()}
+			return map[string]any{"goroutines": nGo, "ops_per_goroutine": opsPer, "decision": dec.String(), "strategy": kind, "kills": overlap.Load(), "handled": st.handled.Load(), "children_spawned": st.spawned.Load(), "failures": st.failed.Load(), "named_spawns": named.Load(), "name_collisions": collisions.Load()}
 		})
 		vstat.Add("api_calls", int64(nGo*opsPer))
+		vstat.Add("name_collisions", collisions.Load())
 		if b := bad.Load(); b != nil {
 			sv := b.([2]string)
 			if !vstat.Fail(sv[0], sv[1], nil) {
